@@ -8,7 +8,7 @@ shape); (R2) every integer / and % kernel is reachable only through the zero gua
 Does not decide: bitmap word-boundary behaviour, NULL-under-nonzero bits, per-row values."""
 import re
 
-from tmpl import site, suffix, done_sites, start_sites
+from tmpl import site, suffix, done_sites, start_sites, origin_locals
 
 OPS = 'array::ops::<impl array::ArrayImpl>::'
 INT = ('i8', 'i16', 'i32', 'i64', 'i128', 'isize')
@@ -158,6 +158,36 @@ def run(ctx):
                        what='eval_constant folds `x AND NULL` / `x OR NULL` to NULL for every x: `select null and false` returns NULL '
                             '(SQL: false), `select null or true` returns NULL (SQL: true)')
 
+    # R10: validity bitmaps are word-aligned
+    R10 = 'C14-R10'
+    ctx.rule(R10, 'validity bitmaps start at bit 0 of their first word: BitVecExt::and / or / not_then_and (and with them binary_op, '
+                  'select_op, clear_null, the AND/OR kernels) combine bitmaps word by word through as_raw_slice; therefore no BitVec is '
+                  'made by copying a sub-range of another one (BitSlice::to_bitvec / to_owned / BitVec::from_bitslice on `bits[a..b]`, '
+                  '`bits[a..]`), which keeps the head offset of the source')
+    raw = [c for b_ in prog.bodies.values() for c in b_.calls if re.search(r'BitVec::<.*>::as_raw_(mut_)?slice$', c.name or '')]
+    if ctx.anchor(R10, 'raw-word bitmap kernels (as_raw_slice)', raw):
+        ctx.floor(R10, len(raw), 6, 'as_raw_slice call sites')
+        n_copy = 0
+        for b_ in prog.bodies.values():
+            for c in b_.calls:
+                if not re.search(r'BitSlice::<.*>::to_bitvec$|BitVec::<.*>::from_bitslice$|ToOwned::to_owned$', c.name or ''):
+                    continue
+                if 'to_owned' in (c.name or '') and 'BitSlice' not in ' '.join(c.t.get('gargs', []) + [c.res or '']):
+                    continue
+                n_copy += 1
+                if not (c.args and c.args[0]['k'] != 'const'):
+                    continue
+                o = origin_locals(b_, c.args[0]['pl']['l'], depth=8)
+                sub = [x for x in b_.calls if re.search(r'ops::Index::index$|ops::IndexMut::index_mut$', x.fn or '') and x.dest['l'] in o
+                       and len(x.args) > 1 and x.args[1]['k'] != 'const'
+                       and re.search(r'^std::ops::(Range|RangeFrom|RangeInclusive)<', b_.local_ty(x.args[1]['pl']['l']))]
+                ctx.ob(R10, f'{b_.root}·copies-a-sub-range-of-a-bitmap', not sub,
+                       f'{b_.name}: {c.name} at block {c.bb} copies `bits[range]` with a start that need not be a multiple of the word size',
+                       [site(b_, c.bb)],
+                       what=f'{b_.root} builds a bitmap by copying a sub-range of another one: the copy keeps the source\'s bit offset, '
+                            'and the word-wise validity kernels then shift every row\'s NULL flag')
+        ctx.extra['bitmap_copy_sites'] = n_copy
+
     R5 = 'C14-R5'
     ctx.rule(R5, 'ArrayImpl::cast: numeric narrowing never uses a truncating/saturating `as` cast (IntToInt to a narrower '
                  'type, FloatToInt); out-of-range values must go through a checked conversion that yields ConvertError::Overflow')
@@ -216,7 +246,6 @@ def run(ctx):
                  'on the selector\'s validity: the bitmap given to from_data derives from the selector\'s raw bits')
     so = prog.body('array::ops::select_op')
     if ctx.anchor(R8, 'array::ops::select_op', so is not None):
-        from tmpl import origin_locals
         ctx.functions_analysed.add(so.name)
         fd = [c for c in so.calls if (c.fn or '').endswith('from_data')]
         if ctx.anchor(R8, 'select_op: from_data', fd):
